@@ -36,6 +36,12 @@ def items(ctx, un=gen.BODY_UN, bi=gen.BODY_BIN, n=None, depth=None, salt='items'
             out.append((ctxp, [('tel', w(a)), ('tel', w(na))]))
             out.append((ctxp, [('tel', w(na)), ('tel', w(a))]))
         out.append((ctxp, [('tel', ('or', ('prev', None, a), ('prev', None, na)))]))
+        # ... negation and double negation directly over every operator (their values at the first and at the last state differ from operator to operator)
+        ctxn = [{'part': 'always', 'head': ('choice', ['a', 'b']), 'body': []}]
+        for w in [lambda x: ('prev', None, x), lambda x: ('wprev', None, x), lambda x: ('prev', 2, x), lambda x: ('wprev', 2, x), lambda x: ('next', None, x), lambda x: ('wnext', None, x), lambda x: ('next', 2, x),
+                  lambda x: ('wnext', 2, x), lambda x: ('initially', x), lambda x: ('finally', x), lambda x: ('since', None, x), lambda x: ('trigger', None, x), lambda x: ('until', None, x), lambda x: ('release', None, x),
+                  lambda x: ('since', b, x), lambda x: ('trigger', b, x), lambda x: ('until', b, x), lambda x: ('release', b, x), lambda x: ('seqnext', b, x), lambda x: ('seqprev', b, x)]:
+            out.append((ctxn, [('tel', ('not', w(a))), ('tel', ('not', ('not', w(a))))]))
         # ... a formula and its weak / strong or dual sibling (two formulas that differ in one flag only), in both orders
         for f, g in gen.sibling_pairs():
             out.append((ctxp, [('tel', f), ('tel', g)]))
